@@ -219,6 +219,9 @@ pub fn run_case<V: VringT<GM> + Clone + Send + Sync + 'static>(case: &Value, tra
                     vec![step["rid"].as_u64().unwrap() as usize]
                 };
                 let bad = step["badfd"].as_bool().unwrap_or(false);
+                // the last region's descriptor is the pool file opened read-only (a shared writable mapping of it must fail)
+                let rdonly = step["rdonly"].as_bool().unwrap_or(false);
+                let mut ro_files: Vec<File> = Vec::new();
                 let size_delta = step["size_delta"].as_i64().unwrap_or(0);
                 let mut body = Vec::new();
                 let mut fds = Vec::new();
@@ -237,7 +240,18 @@ pub fn run_case<V: VringT<GM> + Clone + Send + Sync + 'static>(case: &Value, tra
                     body.extend_from_slice(&ua.to_le_bytes());
                     body.extend_from_slice(&r.off.to_le_bytes());
                     if op != "rem_mem_reg" {
-                        fds.push(if bad && i == rids.len() - 1 { badsock.0.as_raw_fd() } else { r.file.as_raw_fd() });
+                        if rdonly && !bad && i == rids.len() - 1 {
+                            if let Ok(f) = std::fs::OpenOptions::new().read(true).open(format!("/proc/self/fd/{}", r.file.as_raw_fd())) {
+                                ro_files.push(f);
+                            }
+                        }
+                        fds.push(if bad && i == rids.len() - 1 {
+                            badsock.0.as_raw_fd()
+                        } else if let (true, Some(f)) = (rdonly && i == rids.len() - 1, ro_files.last()) {
+                            f.as_raw_fd()
+                        } else {
+                            r.file.as_raw_fd()
+                        });
                     }
                 }
                 let code = match op {
